@@ -134,6 +134,12 @@ class PackCommitBuilder(VersionedFileCommitBuilder):
         )
 
     def _heads(self, file_id, revision_ids):
+        if self.repository._fallback_repositories:
+            # The per-file graph only covers the texts held by this
+            # repository itself; in a stacked repository the parents' texts
+            # may live in a fallback, so use the revision graph (which spans
+            # the fallbacks) as the base class does.
+            return VersionedFileCommitBuilder._heads(self, file_id, revision_ids)
         keys = [(file_id, revision_id) for revision_id in revision_ids]
         return {key[1] for key in self._file_graph.heads(keys)}
 
